@@ -32,10 +32,13 @@ def run():
     n = 4 if b.tier == 'quick' else 5
     cov = b.coverage(
         rule=f"every command list of <= {n} declarations whose parents are subsets of the earlier names x every "
-             f"internal('!')/command flag pattern with at least one command, under two name assignments "
-             f"(set iteration order); per declaration: construction, dependents == descendants, one option per "
+             f"internal('!')/command flag pattern with at least one command, under three name assignments "
+             f"(set iteration order; the third has upper-case letters and two names equal up to letter case, "
+             f"<= {n - 1} declarations); per declaration: construction, dependents == descendants, one option per "
              f"parser + one global option parsed for every (command, option) pair with real argparse, default-command "
-             f"vectors. non-trivial = some command has >= 2 parents",
+             f"vectors, and for every declared name (command or internal set) every upper/lower/capitalised/swapped/"
+             f"alternating spelling that is not itself a declared name as first argument, alone and (first two spellings) followed by "
+             f"each parser's option (accepted iff the default command owns or inherits it). non-trivial = some command has >= 2 parents",
         exhaustive=True)
     cov.update(ppart)
     _seen, _viol = set(), []
